@@ -72,6 +72,12 @@ func zzSeqStep() {
 	seq, err := c.nextLocalSequenceNumber(epoch)
 	if pre > recordlayer.MaxSequenceNumber {
 		zzsymAssert(err != nil, "overflow_refused")
+		// exhausted stays exhausted: the refusal hands out no number and does not wind the counter back into the
+		// 48-bit space (a counter set to 2^48-1 here would re-issue the last number to the next writer, e.g. the
+		// close_notify of Close or a connection resumed from a state exported afterwards)
+		zzsymAssert(common.LocalSequenceNumber[epoch] > recordlayer.MaxSequenceNumber, "overflow_keeps_counter_beyond_the_sequence_space")
+		_, err2 := c.nextLocalSequenceNumber(epoch)
+		zzsymAssert(err2 != nil, "overflow_refused_again")
 		zzsymCover("alloc_overflow")
 		return
 	}
